@@ -20,9 +20,14 @@ MUTANTS = [
     M("flush-unguarded", HT, "            if rest and \"<\" not in rest:\n", "            if rest:\n", "C17-EOF"),
     M("msg-html-hint-doubled-backslash", MS, "script)(\\s|/|>)\",", "script)(\\\\s|>)\",", "C17-N5"),
     M("msg-html-hint-no-self-closing", MS, "script)(\\s|/|>)\",", "script)(\\s|>)\",", "C17-N5"),
+    M("html-noscript-as-raw-text", H, "    def __init__(self):\n        super().__init__(convert_charrefs=True)\n        # Root node\n", "    CDATA_CONTENT_ELEMENTS = (\"script\", \"style\", \"noscript\", \"iframe\")\n\n    def __init__(self):\n        super().__init__(convert_charrefs=True)\n        # Root node\n", "C17-TOK"),
+    M("epub-cdata-mode-for-removed", EP, "            if tag not in _VOID_TAGS:\n                self.skip_depth = 1\n                self._skip_tag = tag\n            return\n\n        if tag == \"title\":", "            if tag not in _VOID_TAGS:\n                self.skip_depth = 1\n                self._skip_tag = tag\n                self.set_cdata_mode(tag)\n            return\n\n        if tag == \"title\":", "C17-TOK"),
+    M("epub-br-before-skip-test", EP, "        tag = tag.lower()\n\n        if self.skip_depth > 0:\n            if tag == self._skip_tag:\n                self.skip_depth += 1\n            return\n", "        tag = tag.lower()\n\n        if tag == \"br\":\n            self.text_parts.append(\"\\n\")\n\n        if self.skip_depth > 0:\n            if tag == self._skip_tag:\n                self.skip_depth += 1\n            return\n", "C17-GUARD"),
+    M("html-last-closed-reset-before-skip-test", H, "        node = {\"tag\": tag, \"attrs\": attrs_dict, \"children\": [], \"text\": \"\", \"tail\": \"\"}\n\n        if self.skip_depth > 0:", "        node = {\"tag\": tag, \"attrs\": attrs_dict, \"children\": [], \"text\": \"\", \"tail\": \"\"}\n        self.last_closed = None\n\n        if self.skip_depth > 0:", "C17-GUARD"),
 ]
 
 TWINS = [
+    T("epub-guard-after-local-only", EP, "    def handle_data(self, data: str):\n        if self.skip_depth > 0:\n            return\n", "    def handle_data(self, data: str):\n        chunk = data\n        if self.skip_depth > 0:\n            return\n"),
     T("html-sniff-window-4k", "sharepoint2text/parsing/extractors/html_extractor.py", "            head = _RE_COMMENT_BYTES.sub(b\"\", content[:8192])\n", "            window = content[:4096]\n            head = _RE_COMMENT_BYTES.sub(b\"\", window)\n"),
     T("msg-html-hint-as-class", MS, "script)(\\s|/|>)\",", "script)[\\s/>]\","),
     T("html-skip-test-reordered", H, "        if self.skip_depth > 0:\n            if tag == self._skip_tag:\n                self.skip_depth += 1\n            return\n\n        if tag in REMOVE_TAGS:", "        if self.skip_depth > 0:\n            if self._skip_tag == tag:\n                self.skip_depth = self.skip_depth + 1\n            return\n\n        if tag in REMOVE_TAGS:"),
